@@ -4,6 +4,8 @@
 mod abs;
 mod c02;
 mod c03;
+mod c16;
+mod faithful;
 mod gen;
 mod model;
 mod mon;
@@ -81,10 +83,13 @@ fn main() {
         "C05" => run_property(&props_engine::c05(), &opts),
         "C06" => run_property(&props_engine::c06(), &opts),
         "C07" => run_property(&props_engine::c07(), &opts),
+        "C08" => run_property(&faithful::C08, &opts),
         "C09" => run_property(&props_engine::c09(), &opts),
         "C10" => run_property(&props_engine::c10(), &opts),
         "C11" => run_property(&props_engine::c11(), &opts),
+        "C14" => run_property(&faithful::C14, &opts),
         "C15" => run_property(&props_engine::c15(), &opts),
+        "C16" => run_property(&c16::C16, &opts),
         "C17" => run_property(&props_engine::c17(), &opts),
         "C18" => run_property(&props_engine::c18(), &opts),
         _ => {
